@@ -113,8 +113,8 @@ mod verif_cache {
             m.drop_edge(e);
         }
         kani::cover!(hit && key_eq(&k3, &k2), "hit on the most recent entry (assumed index region reachable)");
-        kani::cover!(hit && !key_eq(&k3, &k2), "hit on the older entry (BUCKETS > 1 only)");
-        kani::cover!(!hit && key_eq(&k3, &k2), "miss although the key was just added (other bucket probed)");
+        kani::cover!(BUCKETS == 1 || (hit && !key_eq(&k3, &k2)), "BUCKETS > 1: hit on the older entry (it survived in the other bucket)");
+        kani::cover!(BUCKETS == 1 || (!hit && key_eq(&k3, &k2)), "BUCKETS > 1: miss although the key was just added (other bucket probed)");
         kani::cover!(!hit && k3.op != k2.op, "miss on a different operator");
         release(&m, es);
         core::mem::forget(cache);
@@ -144,8 +144,8 @@ mod verif_cache {
             m.drop_edge(e);
         }
         kani::cover!(hit && key_eq(&k3, &k2), "hit on the most recent entry (assumed index region reachable)");
-        kani::cover!(hit && !key_eq(&k3, &k2), "hit on the older entry (BUCKETS > 1 only)");
-        kani::cover!(!hit && key_eq(&k3, &k2), "miss although the key was just added (other bucket probed)");
+        kani::cover!(BUCKETS == 1 || (hit && !key_eq(&k3, &k2)), "BUCKETS > 1: hit on the older entry (it survived in the other bucket)");
+        kani::cover!(BUCKETS == 1 || (!hit && key_eq(&k3, &k2)), "BUCKETS > 1: miss although the key was just added (other bucket probed)");
         release(&m, es);
         core::mem::forget(cache);
     }
@@ -163,26 +163,20 @@ mod verif_cache {
     shape!(key_exact_cap1_a1, key_exact_shorthand, 1, 1);
     shape!(key_exact_cap1_a2, key_exact_shorthand, 2, 1);
     shape!(key_exact_cap1_a3, key_exact_shorthand, 3, 1);
-    shape!(key_exact_cap1_a1_n0, key_exact_extended, 1, 0, 1);
     shape!(key_exact_cap1_a1_n1, key_exact_extended, 1, 1, 1);
     shape!(key_exact_cap1_a1_n2, key_exact_extended, 1, 2, 1);
-    shape!(key_exact_cap1_a2_n0, key_exact_extended, 2, 0, 1);
     shape!(key_exact_cap1_a2_n1, key_exact_extended, 2, 1, 1);
     shape!(key_exact_cap1_a2_n2, key_exact_extended, 2, 2, 1);
-    shape!(key_exact_cap1_a3_n0, key_exact_extended, 3, 0, 1);
     shape!(key_exact_cap1_a3_n1, key_exact_extended, 3, 1, 1);
     shape!(key_exact_cap1_a3_n2, key_exact_extended, 3, 2, 1);
     // BUCKETS = 2
     shape!(key_exact_cap2_a1, key_exact_shorthand, 1, 2);
     shape!(key_exact_cap2_a2, key_exact_shorthand, 2, 2);
     shape!(key_exact_cap2_a3, key_exact_shorthand, 3, 2);
-    shape!(key_exact_cap2_a1_n0, key_exact_extended, 1, 0, 2);
     shape!(key_exact_cap2_a1_n1, key_exact_extended, 1, 1, 2);
     shape!(key_exact_cap2_a1_n2, key_exact_extended, 1, 2, 2);
-    shape!(key_exact_cap2_a2_n0, key_exact_extended, 2, 0, 2);
     shape!(key_exact_cap2_a2_n1, key_exact_extended, 2, 1, 2);
     shape!(key_exact_cap2_a2_n2, key_exact_extended, 2, 2, 2);
-    shape!(key_exact_cap2_a3_n0, key_exact_extended, 3, 0, 2);
     shape!(key_exact_cap2_a3_n1, key_exact_extended, 3, 1, 2);
     shape!(key_exact_cap2_a3_n2, key_exact_extended, 3, 2, 2);
 
